@@ -24,7 +24,7 @@ import (
 )
 
 func init() {
-	register(&Prop{ID: "C10", Gen: genC10, Run: runC10, Timeout: 120 * time.Second})
+	register(&Prop{ID: "C10", Gen: genC10, Run: runC10, Timeout: 60 * time.Second})
 }
 
 var (
@@ -80,7 +80,10 @@ func runC10(op string) string {
 	connS.perturb = NewRand(pseed ^ 0x5a5a)
 	switch f[0] {
 	case "st":
-		dir := f[1]
+		// upper case: the sender's connection accepts no write until the sender has queued
+		// (almost) everything, so many segments wait in the muxer while later batches are built
+		hold := f[1] == "C" || f[1] == "S"
+		dir := strings.ToLower(f[1])
 		if dir != "c" && dir != "s" {
 			return "bad-op"
 		}
@@ -125,6 +128,15 @@ func runC10(op string) string {
 		if dir == "s" {
 			sender = server
 		}
+		var release func()
+		queued := make(chan struct{}, 1)
+		if hold && n > 0 {
+			hc := make(chan struct{})
+			sender.conn.holdCh = hc
+			var ronce sync.Once
+			release = func() { ronce.Do(func() { close(hc) }) }
+			defer release()
+		}
 		client.start()
 		server.start()
 		if n == 0 {
@@ -134,7 +146,20 @@ func runC10(op string) string {
 		go func() {
 			r := NewRand(pseed)
 			burst := 0
-			for _, m := range msgs {
+			threshold := n
+			if threshold > 60 {
+				threshold = 60 // the send queue holds 80: this many can always be queued without a write
+			}
+			for i, m := range msgs {
+				if i == threshold {
+					select {
+					case queued <- struct{}{}:
+					default:
+					}
+				}
+				if hold && m.wait && i < threshold {
+					m.wait = false // waiting for delivery while writes are held would block the queueing
+				}
 				if burst == 0 {
 					for k := r.Intn(4); k > 0; k-- {
 						runtime.Gosched()
@@ -154,17 +179,63 @@ func runC10(op string) string {
 					return
 				}
 			}
+			select {
+			case queued <- struct{}{}:
+			default:
+			}
 		}()
 		var err error
-		select {
-		case <-done:
-		case err = <-client.errCh:
-		case err = <-server.errCh:
-		case err = <-sendErr:
+		if release != nil {
+			// event synchronisation: let the connection accept writes once the sender has queued
+			// `threshold` messages (or failed)
+			select {
+			case <-queued:
+			case err = <-client.errCh:
+			case err = <-server.errCh:
+			case err = <-sendErr:
+			}
+			release()
+		}
+		stalled := false
+		if err == nil {
+			// Stall detection by events, not by the per-op deadline: once every byte of every
+			// message has been written by the sender and read by the receiving muxer, the
+			// receiving protocol only has a few buffered segments left to decode. If the handler
+			// still has not seen all messages a generous while after that, it never will.
+			total := 0
+			for _, m := range msgs {
+				total += len(m.raw)
+			}
+			receiver := server
+			if dir == "s" {
+				receiver = client
+			}
+			stall := make(chan struct{})
+			go func() {
+				sender.conn.waitPayloadBytes(total)
+				receiver.conn.in.waitReaderIdle()
+				select {
+				case <-done:
+				case <-time.After(30 * time.Second):
+					close(stall)
+				}
+			}()
+			select {
+			case <-done:
+			case <-stall:
+				stalled = true
+			case err = <-client.errCh:
+			case err = <-server.errCh:
+			case err = <-sendErr:
+			}
 		}
 		client.stop()
 		server.stop()
-		return fmt.Sprintf("recv=%s err=%s segs=%s", recv.String(), g4ErrClass(err), sender.segLens())
+		ec := g4ErrClass(err)
+		if stalled {
+			ec = "stalled"
+		}
+		return fmt.Sprintf("recv=%s err=%s segs=%s", recv.String(), ec, sender.segLens())
 	case "rr":
 		depth, e := strconv.Atoi(f[1])
 		if e != nil || depth < 1 {
@@ -381,7 +452,7 @@ func c10Size(r *Rand, tier string, allowHuge bool) int {
 func genC10(r *Rand, n int, tier string, emit func(string)) {
 	for i := 0; i < n; i++ {
 		planAB, planBA := c09Plan(r), c09Plan(r)
-		huge := r.Chance(1, 20)
+		huge := r.Chance(1, 20) && tier != "race"
 		if huge {
 			// multi-MiB messages: keep the read fragmentation coarse enough to stay fast
 			planAB = Pick(r, "-", "1000,7", "65543", "4096", "8,65535")
@@ -403,6 +474,34 @@ func genC10(r *Rand, n int, tier string, emit func(string)) {
 			emit(fmt.Sprintf("bk %s %s %d %s", planAB, planBA, r.Intn(1<<30), strings.Join(parts, " ")))
 			continue
 		}
+		if r.Chance(1, 5) {
+			// targeted batching patterns; a tiny first message lets the rest gather in the send
+			// queue so that they are batched together
+			parts := []string{fmt.Sprintf("%d.%d", 2+r.Intn(5), r.Intn(1000))}
+			reps := 1 + r.Intn(4)
+			for k := 0; k < reps; k++ {
+				switch r.Intn(3) {
+				case 0:
+					// a complete small message followed in the same segment by the START of a
+					// message that later segments complete, then another small one (leftover path)
+					parts = append(parts,
+						fmt.Sprintf("%d.%d", 2+r.Intn(3000), r.Intn(1000)),
+						fmt.Sprintf("%d.%d", 65536+r.Intn(140000), r.Intn(1000)),
+						fmt.Sprintf("%d.%d", 2+r.Intn(300), r.Intn(1000)))
+				case 1:
+					// a batch whose total is an exact multiple of the segment size
+					k65 := 65535 * (1 + r.Intn(3))
+					x := 2 + r.Intn(65000)
+					parts = append(parts, fmt.Sprintf("%d.%d", x, r.Intn(1000)), fmt.Sprintf("%d.%d", k65-x, r.Intn(1000)))
+				default:
+					// the need-more state entered with a few bytes only (header cut)
+					x := 65535 - Pick(r, 1, 2, 3, 4, 5, 6, 7)
+					parts = append(parts, fmt.Sprintf("%d.%d", x, r.Intn(1000)), fmt.Sprintf("%d.%d", 70000+r.Intn(1000), r.Intn(1000)))
+				}
+			}
+			emit(fmt.Sprintf("st %s %s %s %d %s", Pick(r, "c", "s", "C", "S"), planAB, planBA, r.Intn(1<<30), strings.Join(parts, " ")))
+			continue
+		}
 		if r.Chance(3, 5) {
 			nm := Pick(r, 1, 2, 3, 5, 10, 25, 45, 60, 90)
 			if huge {
@@ -421,7 +520,7 @@ func genC10(r *Rand, n int, tier string, emit func(string)) {
 				}
 				parts = append(parts, s)
 			}
-			emit(fmt.Sprintf("st %s %s %s %d %s", Pick(r, "c", "s"), planAB, planBA, r.Intn(1<<30), strings.Join(parts, " ")))
+			emit(fmt.Sprintf("st %s %s %s %d %s", Pick(r, "c", "s", "c", "s", "C", "S"), planAB, planBA, r.Intn(1<<30), strings.Join(parts, " ")))
 		} else {
 			nm := Pick(r, 1, 2, 3, 5, 10, 20, 40)
 			if huge {
